@@ -116,6 +116,31 @@ CHECKS = {
         technique="compiler sanitizers (AddressSanitizer + UndefinedBehaviorSanitizer + _GLIBCXX_ASSERTIONS) under steered workloads",
         design="DESIGN.md section 2, C08",
     ),
+    "C09": dict(
+        script="checks/c09.py",
+        level="model_checking",
+        text="An executable model of the protocol (initialised flag, seven configuration fields, operation count, event count, version flag) is "
+             "explored breadth-first over MODEL states; every (state, operation) pair within the depth bound (6 quick / 8 thorough, 23 operations) "
+             "is executed on the real decay0_generator by replaying the shortest sequence that reaches the state, and after every call the "
+             "implementation is compared with the model: throws <=> model, all getters, reset == freshly constructed object, failed initialize => "
+             "object still initialisable. The first hit in BFS order is a minimal failing sequence. Repeated in the ASan/UBSan build.",
+        note="Bounded depth and a small alphabet of cheap configurations; the general accept/reject rules are C06's; every trace is validated "
+             "against the implementation (no abstraction gap beyond the alphabet).",
+        technique="runtime conformance monitor: executable reference model + exhaustive bounded BFS of API call sequences replayed on the real object",
+        design="DESIGN.md section 2, C09",
+    ),
+    "C10": dict(
+        script="checks/c10.py",
+        level="exploration",
+        text="Hundreds of thousands of operation applications on events of 30 generators: a monitor snapshots the event before and after and "
+             "checks count/species/times bit-identical, |p| to 1e-12, the draw discipline (stand-alone operation on the plain decay with the tape at "
+             "n0 reproduces generator+operation bit for bit), rigid proper rotation and cone / rectangular-window membership (both half-angles) in "
+             "target mode, membership and untouched rest in selection mode, the nothing-selected behaviour, get_last_target_index, and equality "
+             "of the degree-based and radian-based entry points; degenerate null half-angles must be refused or honoured, never spin.",
+        note="Cone frame defined by the axis vector; rectangular windows drawn with analytic acceptance >= 4e-3 so the draw cap cannot fire on correct code.",
+        technique="runtime before/after invariant monitor on hooked operation calls, replayed deviate tape",
+        design="DESIGN.md section 2, C10",
+    ),
     "C16": dict(
         script="checks/c16.py",
         level="exploration",
